@@ -75,6 +75,30 @@ pub(crate) fn c03_frame_enter_guard_contract() {
     kani::cover!(true);
 }
 
+#[cfg(kani)]
+fn any_panicking() -> bool {
+    kani::any()
+}
+
+/// The guard's Drop exits the frame whether or not the thread is panicking (`std::thread::panicking()` answers an
+/// arbitrary boolean): leaving a frame by unwinding runs exactly this Drop, so an "if panicking { return }" guard
+/// in it would leave the frame's properties ambient after a caught panic. (Unwinding itself is not modelled.)
+#[cfg_attr(kani, kani::proof)]
+#[cfg_attr(kani, kani::unwind(10))]
+#[cfg_attr(kani, kani::stub(std::thread::panicking, any_panicking))]
+pub(crate) fn c03_enter_guard_drop_exits_when_panicking() {
+    let c = OracleCtxt::new(kani::any(), kani::any());
+    let mut frame = Frame::root(&c, emit::Empty);
+    {
+        let _g = frame.enter();
+        c.mark();
+    }
+    expect(&c, &[OPEN, ENTER, SCOPE, EXIT]);
+    drop(frame);
+    expect(&c, &[OPEN, ENTER, SCOPE, EXIT, CLOSE]);
+    kani::cover!(true);
+}
+
 struct Oracle2<'a> {
     c: &'a OracleCtxt,
     ready_first: bool,
